@@ -61,8 +61,8 @@ if ! build "$VARIANT" 2>"$B/build-$ID.log"; then
   exit 2
 fi
 
-# C12: free-running -race complement, same scenario table, accessor-only overlay (no rewriting, real sync)
-if [ "$ID" = C12 ] && [ "$MODE" = check ]; then
+# C12 (and C11 for its concurrent-creation scenarios): free-running -race complement, same scenario table, accessor-only overlay (no rewriting, real sync)
+if { [ "$ID" = C12 ] || [ "$ID" = C11 ]; } && [ "$MODE" = check ]; then
   (
     flock 9
     cd $V/mc || exit 2
